@@ -113,7 +113,7 @@ func ifTagCompiler(polarity bool) func(render.BlockNode) (func(io.Writer, render
 				if err != nil {
 					return parser.WrapError(err, b.body)
 				}
-				if value != nil && value != false {
+				if values.Truthy(value) {
 					return ctx.RenderBlock(w, b.body)
 				}
 			}
